@@ -342,11 +342,44 @@ func runCase(c Case) (rep Report) {
 	done := make(chan ev.Outcome, 1)
 	go func() { done <- ev.EvalForms(scope, main) }()
 	var out ev.Outcome
-	select {
-	case out = <-done:
-	case <-time.After(60 * time.Second):
-		rep.Msg = "DEADLINE: the program did not finish within 60 s"
-		return
+	// watchdog: the programs finish in milliseconds; a program that makes no progress (no shared operation) for 10 s
+	// and has not finished is stuck. For the mutex template the state is looked at: a mutex that is locked while no
+	// routine is inside a critical section was not released on some exit - that is a state, not a timing.
+	lastShared, lastChange, held := sharedN.Load(), time.Now(), 0
+	tick := time.NewTicker(100 * time.Millisecond)
+	defer tick.Stop()
+wait:
+	for {
+		select {
+		case out = <-done:
+			break wait
+		case <-tick.C:
+			if n := sharedN.Load(); n != lastShared {
+				lastShared, lastChange, held = n, time.Now(), 0
+				continue
+			}
+			if c.Template == "mutex" {
+				if mu, ok := scope.Get(slip.Symbol("*mu*")).(*gi.Mutex); ok && inCS.Load() == 0 {
+					if (*sync.Mutex)(mu).TryLock() {
+						(*sync.Mutex)(mu).Unlock()
+						held = 0
+					} else {
+						held++
+					}
+				} else {
+					held = 0
+				}
+				if held >= 30 && time.Since(lastChange) > 3*time.Second {
+					rep.Msg = fmt.Sprintf("STUCK: the mutex has been locked for %d looks in a row while no routine is inside with-mutex-lock and nothing made progress for %.0f s: it was not released on some exit (%d routines still wait)",
+						held, time.Since(lastChange).Seconds(), active.Load())
+					return
+				}
+			}
+			if time.Since(lastChange) > 20*time.Second {
+				rep.Msg = "DEADLINE: the program made no progress for 20 s and has not finished"
+				return
+			}
+		}
 	}
 	rep.Overlap = int(maxAct.Load())
 	rep.Shared = int(sharedN.Load())
@@ -574,6 +607,73 @@ func isKnown(sig string) bool {
 
 var runCtr atomic.Int64
 
+// ExitCase is one way of leaving with-mutex-lock in a single routine.
+type ExitCase struct {
+	Form string `json:"form"`
+}
+
+// exitForms: every way control can leave the body of with-mutex-lock, alone and with a second mutex nested, wrapped so
+// that the whole form returns normally. After each one both mutexes must be free (TryLock from go succeeds at once).
+func exitForms() (out []string) {
+	exits := []struct{ wrap, exit string }{
+		{"(progn %s)", "nil"},
+		{"(block out %s)", "(return-from out 1)"},
+		{"(block nil %s)", "(return 2)"},
+		{"(tagbody %s done)", "(go done)"},
+		{"(ignore-errors %s)", "(error \"leave\")"},
+		{"(ignore-errors %s)", "(car 1)"},
+		{"(ignore-errors %s)", "(/ 1 0)"},
+		{"(ignore-errors %s)", "(c17-undefined-function 1)"},
+		{"(ignore-errors %s)", "c17-unbound-variable"},
+		{"(recover rec 8 %s)", "(panic \"leave\")"},
+		{"(block out (unwind-protect %s (return-from out 4)))", "(error \"leave\")"},
+		{"(dotimes (i 3) %s)", "(when (= i 1) (return 5))"},
+		{"(dolist (x '(1 2 3)) %s)", "(when (= x 2) (return 6))"},
+		{"(funcall (lambda () (block f %s)))", "(return-from f 7)"},
+	}
+	bodies := []string{
+		"(with-mutex-lock *mu* (vt:mark 1) %s (vt:mark 2))",
+		"(with-mutex-lock *mu* (with-mutex-lock *mu2* (vt:mark 1) %s (vt:mark 2)) (vt:mark 3))",
+		"(with-mutex-lock *mu* (let ((v 1)) (when v %s)) (vt:mark 2))",
+		"(with-mutex-lock *mu* (unwind-protect %s (vt:mark 9)))",
+		"(with-mutex-lock *mu* (mapcar (lambda (v) %s) '(1 2)))",
+	}
+	for _, e := range exits {
+		for _, b := range bodies {
+			out = append(out, fmt.Sprintf(e.wrap, fmt.Sprintf(b, e.exit)))
+		}
+	}
+	return
+}
+
+func runExit(c ExitCase) *h.Result {
+	res := &h.Result{NonTrivial: true, Classes: []string{"mutex-exit"}}
+	scope := slip.NewScope()
+	mu, mu2 := &gi.Mutex{}, &gi.Mutex{}
+	scope.Let(slip.Symbol("*mu*"), mu)
+	scope.Let(slip.Symbol("*mu2*"), mu2)
+	done := make(chan ev.Outcome, 1)
+	go func() { done <- ev.Eval(scope, c.Form) }()
+	var out ev.Outcome
+	select {
+	case out = <-done:
+	case <-time.After(30 * time.Second):
+		return h.Fail("%s does not return (single routine, both mutexes free at the start)", c.Form)
+	}
+	if out.Kind == ev.Fault {
+		return h.Fail("%s => %s", c.Form, out)
+	}
+	for i, m := range []*gi.Mutex{mu, mu2} {
+		if !(*sync.Mutex)(m).TryLock() {
+			return h.Fail("after %s (outcome %s) mutex %d is still locked: with-mutex-lock did not release it on this exit", c.Form, out, i+1)
+		}
+		(*sync.Mutex)(m).Unlock()
+	}
+	return res
+}
+
+var exitGrid = h.Prop[ExitCase]{Name: "mutex-exit-grid", Run: runExit}
+
 func run(c Case) *h.Result {
 	res := &h.Result{Classes: []string{"template:" + c.Template, fmt.Sprintf("procs:%d", c.Procs)}}
 	bin := os.Getenv("VERIF_BIN")
@@ -628,9 +728,9 @@ func run(c Case) *h.Result {
 		rep = rep2
 		res.Classes = append(res.Classes, "worker-died-once")
 	}
-	if strings.HasPrefix(rep.Msg, "DEADLINE") {
+	if strings.HasPrefix(rep.Msg, "DEADLINE") || strings.HasPrefix(rep.Msg, "STUCK") {
 		rep2, _, _, _ := attempt()
-		if strings.HasPrefix(rep2.Msg, "DEADLINE") {
+		if strings.HasPrefix(rep2.Msg, "DEADLINE") || strings.HasPrefix(rep2.Msg, "STUCK") {
 			res.Err = fmt.Sprintf("%s %+v: %s (twice)\n%s", c.Template, c, rep.Msg, rep.Program)
 			return res
 		}
@@ -692,6 +792,17 @@ func TestC17(t *testing.T) {
 	h.Assume("the Go race detector reports only real races; a schedule that was not hit is not covered")
 	loadKnown()
 	// every template in every variant once (cold and warm), so that no template/variant depends on being drawn
+	// every way of leaving with-mutex-lock in one routine: the mutex must be free afterwards (decided from go with TryLock)
+	h.RunProp(t, exitGrid, 0)
+	if h.C.Shard == 0 {
+		h.Enumerate(t, exitGrid, func(yield func(ExitCase) bool) {
+			for _, f := range exitForms() {
+				if !yield(ExitCase{Form: f}) {
+					return
+				}
+			}
+		})
+	}
 	h.RunProp(t, concGrid, 0)
 	h.Enumerate(t, concGrid, func(yield func(Case) bool) {
 		sh := h.C.Shard
